@@ -301,6 +301,20 @@ impl<Sink: TokenSink> XmlTokenizer<Sink> {
     // NB: this doesn't do input stream preprocessing or set the current input
     // character.
     fn eat(&self, input: &BufferQueue, pat: &str) -> Option<bool> {
+        if self.ignore_lf.get() {
+            // The previous character was a CR: skip the LF of a CRLF pair before comparing,
+            // waiting for the next character if it has not arrived yet.
+            match input.peek() {
+                Some('\n') => {
+                    input.next();
+                },
+                Some(_) => (),
+                None if self.at_eof.get() => (),
+                None => return None,
+            }
+            self.ignore_lf.set(false);
+        }
+
         input.push_front(replace(&mut *self.temp_buf.borrow_mut(), StrTendril::new()));
         match input.eat(pat, u8::eq_ignore_ascii_case) {
             None if self.at_eof.get() => Some(false),
